@@ -74,15 +74,12 @@ Proof.
   rewrite forallb_forall in H. apply H. destruct force; cbn; auto.
 Qed.
 
-(* ---------- classes of inputs the unchanged builder mishandles (DESIGN.md section 7) ---------- *)
-Definition excluded (b : bstate) : bool :=
-  negb (b_use_joint b) && (overlap_add_remove b || demote_and_add_voter b).
-
+(* ---------- every input: no class is excluded any more (the builder was repaired) ---------- *)
 Definition builder_case_ok (i : binput) : bool :=
   match prepared i with
   | None => true
   | Some b => match build i with
-              | Built ss _ _ => excluded b || plan_ok (goal_of b) (i_region i) ss
+              | Built ss _ _ => plan_ok (goal_of b) (i_region i) ss
               | BuildErr => true
               | BuildFuel => false
               end
@@ -106,10 +103,10 @@ Lemma builder_ok_3 : forall_inputs 3 builder_case_ok = true.
 Proof. vm_cast_no_check (@eq_refl bool true). Qed.
 
 Lemma builder_case_ok_elim i b ss kl kr :
-  builder_case_ok i = true -> prepared i = Some b -> build i = Built ss kl kr -> excluded b = false ->
+  builder_case_ok i = true -> prepared i = Some b -> build i = Built ss kl kr ->
   plan_ok (goal_of b) (i_region i) ss = true.
 Proof.
-  unfold builder_case_ok. intros H Hp Hb He. rewrite Hp, Hb, He in H. cbn [orb] in H. exact H.
+  unfold builder_case_ok. intros H Hp Hb. rewrite Hp, Hb in H. exact H.
 Qed.
 
 Lemma builder_plan_ok_bounded_pf :
@@ -119,56 +116,56 @@ Lemma builder_plan_ok_bounded_pf :
     In tv (vectors role_opts n) -> In tl (0 :: voters_of (target_of tv)) ->
     In lok (vectors [true; false] n) -> In m modes ->
   forall b ss kl kr,
-    let i := mk_input n ov ol tv tl lok m force in
-    prepared i = Some b -> build i = Built ss kl kr -> excluded b = false ->
-    plan_ok (goal_of b) (i_region i) ss = true.
+    prepared (mk_input n ov ol tv tl lok m force) = Some b -> build (mk_input n ov ol tv tl lok m force) = Built ss kl kr ->
+    plan_ok (goal_of b) (i_region (mk_input n ov ol tv tl lok m force)) ss = true.
 Proof.
-  intros n Hn ov ol tv tl lok m force Hov Hol Htv Htl Hlok Hm b ss kl kr i Hp Hb He.
-  assert (Hc : builder_case_ok i = true).
-  { unfold i. destruct n as [|[|[|[|n]]]]; try lia.
+  intros n Hn ov ol tv tl lok m force Hov Hol Htv Htl Hlok Hm b ss kl kr Hp Hb.
+  assert (Hc : builder_case_ok (mk_input n ov ol tv tl lok m force) = true).
+  { destruct n as [|[|[|[|n]]]]; try lia.
     - exact (forall_inputs_spec 1 builder_case_ok builder_ok_1 ov ol tv tl lok m force Hov Hol Htv Htl Hlok Hm).
     - exact (forall_inputs_spec 2 builder_case_ok builder_ok_2 ov ol tv tl lok m force Hov Hol Htv Htl Hlok Hm).
     - exact (forall_inputs_spec 3 builder_case_ok builder_ok_3 ov ol tv tl lok m force Hov Hol Htv Htl Hlok Hm). }
   eapply builder_case_ok_elim; eauto.
 Qed.
 
-(* in particular the joint path needs no exclusion *)
-Lemma excluded_joint b : b_use_joint b = true -> excluded b = false.
-Proof. unfold excluded. intros ->. reflexivity. Qed.
-
-(* ---------- refutation witnesses ---------- *)
+(* ---------- the inputs that failed before the repairs (regression witnesses) ---------- *)
 Definition up_store (i : Z) := Store i true true [].
 
-(* S16: JointConsensus unsupported; origin {1 voter leader, 2 voter, 3 learner}; DemoteVoter(2).RemovePeer(3) *)
+(* S16: JointConsensus unsupported; origin {1 voter leader, 2 voter, 3 learner}; DemoteVoter(2).RemovePeer(3):
+   the learner on store 2 is added only after voter 12 is gone, and gets a new id *)
 Definition s16_input : binput :=
   BInput (Cluster [up_store 1; up_store 2; up_store 3] false true 0)
          (Region [Peer 1 11 Voter; Peer 2 12 Voter; Peer 3 13 Learner] 1 5 0) [] false
-         [ODemoteVoter 2; ORemovePeer 3] [].
+         [ODemoteVoter 2; ORemovePeer 3] [(2, 202)].
 
-Lemma s16_plan : build s16_input = Built [AddLearner 2 12; RemovePeer 3 13; RemovePeer 2 12] false true.
+Lemma s16_plan : build s16_input = Built [RemovePeer 2 12; AddLearner 2 202; RemovePeer 3 13] false true.
 Proof. vm_compute. reflexivity. Qed.
 
-Lemma s16_fails :
-  exists b, prepared s16_input = Some b /\
-            plan_check (goal_of b) (i_region s16_input) [AddLearner 2 12; RemovePeer 3 13; RemovePeer 2 12]
-            = Some "check-safety-fails:AddLearner"%string.
+Lemma s16_ok : exists b, prepared s16_input = Some b /\
+  plan_ok (goal_of b) (i_region s16_input) [RemovePeer 2 12; AddLearner 2 202; RemovePeer 3 13] = true.
 Proof. eexists. split; vm_compute; reflexivity. Qed.
 
 (* joint consensus supported but switched off; origin {2 voter leader, 3 voter}; target {1 voter, 2 voter, 3 learner}:
-   the follower is demoted before the new voter exists: one voter left out of min(2,2) *)
+   the new voter is added before the follower is demoted *)
 Definition dip_input : binput :=
   BInput (Cluster [up_store 1; up_store 2; up_store 3] true false 0)
          (Region [Peer 2 102 Voter; Peer 3 103 Voter] 2 5 0) [] false
          [OSetPeers [Peer 1 0 Voter; Peer 2 0 Voter; Peer 3 0 Learner]] [(1, 201)].
 
-Lemma dip_plan : build dip_input = Built [DemoteFollower 3 103; AddLearner 1 201; PromoteLearner 1 201] false true.
+Lemma dip_plan : build dip_input = Built [AddLearner 1 201; PromoteLearner 1 201; DemoteFollower 3 103] false true.
 Proof. vm_compute. reflexivity. Qed.
 
-Lemma dip_fails :
-  exists b, prepared dip_input = Some b /\ overlap_add_remove b = false /\
-            plan_check (goal_of b) (i_region dip_input) [DemoteFollower 3 103; AddLearner 1 201; PromoteLearner 1 201]
-            = Some "voters-below-min:DemoteFollower"%string.
-Proof. eexists. split; [|split]; vm_compute; reflexivity. Qed.
+Lemma dip_ok : exists b, prepared dip_input = Some b /\
+  plan_ok (goal_of b) (i_region dip_input) [AddLearner 1 201; PromoteLearner 1 201; DemoteFollower 3 103] = true.
+Proof. eexists. split; vm_compute; reflexivity. Qed.
+
+(* the plans the unrepaired builder produced for these inputs are rejected by the checker *)
+Lemma old_plans_rejected :
+  (exists b, prepared s16_input = Some b /\
+     plan_check (goal_of b) (i_region s16_input) [AddLearner 2 12; RemovePeer 3 13; RemovePeer 2 12] = Some "check-safety-fails:AddLearner"%string)
+  /\ (exists b, prepared dip_input = Some b /\
+     plan_check (goal_of b) (i_region dip_input) [DemoteFollower 3 103; AddLearner 1 201; PromoteLearner 1 201] = Some "voters-below-min:DemoteFollower"%string).
+Proof. split; eexists; split; vm_compute; reflexivity. Qed.
 
 (* ---------- CreateLeaveJointStateOperator ---------- *)
 Definition reachable_joint (ps : list peer) : bool :=
